@@ -19,6 +19,8 @@ PROPS = {
                 explanation="Lexer::next / next_escape / consume_* : progress, non-empty, contiguous, char-boundary, terminating for every string (Verus, against the str model); Parser methods keep leaves ++ buffer == lexer history; every grammar function terminates, never gets a builder error, and root()/parse_root attribute every lexed token to exactly one leaf; peek/peek2/step are trusted leaves (conformance-sampled)"),
     "C09": dict(units=["TABLES", "COMPOUND"], standin=True, level="proof",
                 explanation="CELSIUS offset constant and both FAHRENHEIT closures against the defining formulas (TABLES); apply_conversion Offset/Methods arms, check_offset, Compound::factor chain postcondition and offset guard, Compound::mul offset guard (COMPOUND); formulas, composition, inverse as lemmas over those contracts"),
+    "C17": dict(units=[], kani="ids", standin=True, level="proof",
+                explanation="Kani function contract on the real id_to_derived (every u32 id decodes to a unit carrying that id), every Derived static decodes through its own id to itself, ids equal the pinned list; serde derive output is a bounded stand-in"),
 }
 
 COMMON_TRUST = [
